@@ -554,6 +554,27 @@ def build_volpos(tree):
         texts.append(f'/-- `spatial.{py}` = {v.value!r} -/\ndef {ln} : Rat := ({fr_.numerator} : Rat) / {fr_.denominator}')
     fn = find_func(tree, 'get_volume_positions')
     body = strip_doc(fn.body)
+
+    def head(st):
+        if isinstance(st, ast.Assign):
+            return 'assign ' + ast.unparse(st.targets[0])
+        if isinstance(st, ast.If):
+            return 'if ' + ast.unparse(st.test)[:60]
+        if isinstance(st, ast.For):
+            return 'for ' + ast.unparse(st.target)
+        return type(st).__name__.lower()
+    # every statement of the function and of both branches of `if allow_missing_positions:` is accounted for: a statement that
+    # is not in these lists is NOT silently skipped (audit 2, C03-1) but makes the translation refuse
+    want_top = ['if not sort', 'if spacing_hint is not None', 'if atol is not None and rtol is not None', 'assign image_positions_arr',
+                'if image_positions_arr.ndim != 2 or image_positions_arr.shape[1', 'assign n', 'if n == 0', 'assign normal_vector',
+                'assign (unique_positions, unique_index)', 'if not allow_duplicate_positions', 'if not sort',
+                'if len(unique_positions) == 1', 'assign origin_distances', 'if sort', 'if allow_missing_positions',
+                'if is_regular and enforce_handedness', 'assign pos1', 'assign pos2', 'assign span', 'assign span',
+                'assign dot_product', 'assign is_perpendicular', 'if is_regular and is_perpendicular']
+    got_top = [head(st) for st in body]
+    if got_top != want_top:
+        extra = [h for h in got_top if h not in want_top] or got_top
+        raise Unsupported(f'get_volume_positions: statements changed (unconsumed: {extra[:3]})')
     # (1) hint normalisation
     hint_if = [s for s in body if isinstance(s, ast.If) and ast.unparse(s.test) == 'spacing_hint is not None']
     if len(hint_if) != 1:
@@ -579,6 +600,47 @@ def build_volpos(tree):
     am = [s for s in body if isinstance(s, ast.If) and ast.unparse(s.test) == 'allow_missing_positions']
     if len(am) != 1:
         raise Unsupported('`if allow_missing_positions:` not found')
+    want_gaps = ['if spacing_hint is not None', 'assign origin_distance_multiples', 'assign is_regular', 'assign inverse_sort_index',
+                 'if len(np.unique(inverse_sort_index)) < len(inverse_sort_index)']
+    want_strict = ['assign spacings', 'assign spacing', 'if spacing_hint is not None', 'assign is_regular']
+    if [head(st) for st in am[0].body] != want_gaps or [head(st) for st in am[0].orelse] != want_strict:
+        raise Unsupported('get_volume_positions: statements of the allow_missing_positions branches changed: '
+                          f'{[head(st) for st in am[0].body]} / {[head(st) for st in am[0].orelse]}')
+    # (3a) the spacing with gaps allowed: the hint, or the smallest gap refined over the extent
+    est = am[0].body[0]
+    if [ast.unparse(st) for st in est.body] != ['spacing = spacing_hint']:
+        raise Unsupported('gaps: the hint is no longer taken as the spacing')
+    if [head(st) for st in est.orelse] != ['assign spacings', 'assign spacing', 'if np.isclose(spacing, 0.0, atol=_DEFAULT_EQUALITY_TOLERANCE)', 'for distance'] \
+            or [ast.unparse(st) for st in est.orelse[:2]] != ['spacings = np.diff(origin_distances_sorted)', 'spacing = spacings.min()']:
+        raise Unsupported(f'gaps: spacing estimate changed: {[head(st) for st in est.orelse]}')
+    zero_if = est.orelse[2]
+    if [ast.unparse(st) for st in zero_if.body] != ['return (None, None)'] or zero_if.orelse:
+        raise Unsupported('gaps: zero test of the estimated spacing changed')
+    loop = est.orelse[3]
+    if loop.orelse or ast.unparse(loop.iter) != 'origin_distances_sorted[1:] - origin_distances_sorted[0]' or len(loop.body) != 2:
+        raise Unsupported(f'gaps: refinement loop changed: {ast.unparse(loop)[:120]}')
+    cnt, upd = loop.body
+    if not (isinstance(cnt, ast.Assign) and ast.unparse(cnt.targets[0]) == 'n_spacings' and isinstance(cnt.value, ast.Call)
+            and ast.unparse(cnt.value.func) == 'round' and len(cnt.value.args) == 1 and not cnt.value.keywords
+            and isinstance(cnt.value.args[0], ast.Call) and ast.unparse(cnt.value.args[0].func) == 'float'
+            and len(cnt.value.args[0].args) == 1):
+        raise Unsupported(f'gaps: refinement count changed: {ast.unparse(cnt)}')
+    texts.append(translate_block([ast.fix_missing_locations(ast.Return(value=cnt.value.args[0].args[0]))], 'vpRefineRatio',
+                                 [('distance', 'rat'), ('spacing', 'rat')], {},
+                                 doc='`get_volume_positions`, gaps allowed, no hint: `n_spacings = round(float(this))` (half to even) for the '
+                                     'distance of each plane above the lowest one, in increasing order'))
+    if not (isinstance(upd, ast.If) and not upd.orelse and len(upd.body) == 1 and isinstance(upd.body[0], ast.Assign)
+            and ast.unparse(upd.body[0].targets[0]) == 'spacing'):
+        raise Unsupported(f'gaps: refinement update changed: {ast.unparse(upd)}')
+    texts.append(translate_block([ast.fix_missing_locations(ast.Return(value=upd.test))], 'vpRefineGuard', [('n_spacings', 'int')], {},
+                                 doc='`get_volume_positions`, gaps allowed, no hint: the estimate is replaced when this holds'))
+    texts.append(translate_block([ast.fix_missing_locations(ast.Return(value=upd.body[0].value))], 'vpRefined',
+                                 [('distance', 'rat'), ('n_spacings', 'int')], {},
+                                 doc='`get_volume_positions`, gaps allowed, no hint: … by this'))
+    # (3b) distinct positions must get distinct multiples
+    dist_if = am[0].body[4]
+    if [ast.unparse(st) for st in dist_if.body] != ['is_regular = False'] or dist_if.orelse:
+        raise Unsupported('gaps: the test for planes sharing a multiple changed')
     mult = [s for s in am[0].body if isinstance(s, ast.Assign) and ast.unparse(s.targets[0]) == 'origin_distance_multiples']
     if len(mult) != 1:
         raise Unsupported('origin_distance_multiples assignment not found')
